@@ -39,6 +39,9 @@ ASSUMPTIONS = [
 WATCHDOG = 30.0
 
 
+BLOCKED_AFTER = 0.4  # seconds without reaching an engine call before a thread counts as blocked on a lock
+
+
 class Deadlock(Exception):
     pass
 
@@ -54,6 +57,7 @@ class Sched:
         self.errors: list[BaseException | None] = [None] * n
         self.index: dict[int, int] = {}
         self.trace: list[int] = []
+        self.blocked_events = 0
 
     def gate(self, i: int) -> None:
         with self.cv:
@@ -100,6 +104,11 @@ class Sched:
                 with self.cv:
                     runnable = [i for i in range(self.n) if self.state[i] == "parked"]
                     if not runnable:
+                        if any(s == "blocked" for s in self.state):
+                            # everybody left waits on a lock of the code under test: whoever holds it is neither parked
+                            # nor done, so it is one of the blocked ones getting on with it; wait for it to show up
+                            self._wait(lambda: any(s == "parked" for s in self.state) or all(s == "done" for s in self.state))
+                            continue
                         break
                     if step in plan_d and plan_d[step] in runnable:
                         cur = plan_d[step]
@@ -109,7 +118,20 @@ class Sched:
                     self.turn = cur
                     self.cv.notify_all()
                     c = cur
-                    self._wait(lambda: self.turn is None and self.state[c] in ("parked", "done"))
+                    # the thread runs to its next engine call, or finishes - or it blocks on a lock held by a parked thread
+                    # (FakeSnow.connect serialises connects): then it is set aside and somebody else gets the turn, as an
+                    # operating system scheduler would do; it parks at its next engine call once it got the lock
+                    t0 = time.time()
+                    while not (self.turn is None and self.state[c] in ("parked", "done")):
+                        self.cv.wait(timeout=0.05)
+                        if time.time() - t0 > BLOCKED_AFTER and self.turn is None and self.state[c] == "running" and any(
+                            s == "parked" for j, s in enumerate(self.state) if j != c
+                        ):
+                            self.state[c] = "blocked"
+                            self.blocked_events += 1
+                            break
+                        if time.time() - t0 > WATCHDOG:
+                            raise Deadlock("controller watchdog")
                 step += 1
         finally:
             tap.HOOK = None
@@ -292,6 +314,48 @@ def sc_merge_vs_merge(fs: Any):
     return [body(0), body(1)], check
 
 
+def sc_txn_pk_conflict(fs: Any):
+    """Two overlapping explicit transactions insert one common key into a PRIMARY KEY table. Whoever loses may be told so
+    at the INSERT or at the COMMIT; what may not happen: a session told that everything succeeded does not find its rows,
+    or a session told it failed leaves rows behind."""
+    conns = [fs.connect("db1", "s1") for _ in range(2)]
+    conns[0].cursor().execute("CREATE TABLE ACCT (ID INT PRIMARY KEY, WHO INT)")
+    told: list[Any] = [None, None]
+
+    def body(i: int) -> Callable[[], None]:
+        def f() -> None:
+            cur = conns[i].cursor()
+            try:
+                cur.execute("BEGIN")
+                cur.execute(f"INSERT INTO ACCT VALUES (1, {i}), ({10 + i}, {i}), ({20 + i}, {i})")
+                cur.execute("COMMIT")
+                told[i] = ("ok", cur.fetchall())
+            except Exception as e:  # noqa: BLE001
+                told[i] = ("failed", f"{type(e).__name__}: {str(e)[:120]}")
+                try:
+                    cur.execute("ROLLBACK")
+                except Exception:  # noqa: BLE001
+                    pass
+        return f
+
+    def check(env: core.Env, sched: Sched, name: str) -> None:
+        env.count("cmp_conservation")
+        rows = sorted(core.raw_root(fs).cursor().execute("select ID, WHO from DB1.S1.ACCT").fetchall())
+        for i in range(2):
+            mine = [r_ for r_ in rows if r_[1] == i]
+            if told[i] is None:
+                continue
+            if told[i][0] == "ok" and len(mine) != 3:
+                env.witness(f"C19/{name}/commit-reported-success-but-rows-lost", f"session {i} told {told[i]} but ACCT holds {mine} of its rows; all={rows} trace={sched.trace}")
+            if told[i][0] == "failed" and mine:
+                env.witness(f"C19/{name}/failed-transaction-left-rows", f"session {i} told {told[i]} but ACCT holds {mine}; trace={sched.trace}")
+        if sum(1 for r_ in rows if r_[0] == 1) > 1:
+            env.witness(f"C19/{name}/primary-key-duplicated", f"{rows} trace={sched.trace}")
+        if all(t is not None and t[0] == "failed" for t in told):
+            env.count("both_transactions_failed")
+    return [body(0), body(1)], check
+
+
 def sc_own_tables(fs: Any, k: int = 3):
     conns = [fs.connect("db1", "s1") for _ in range(k)]
 
@@ -322,6 +386,7 @@ SCENARIOS: dict[str, Callable] = {
     "merge-vs-reader": sc_merge_vs_reader,
     "merge-vs-merge": sc_merge_vs_merge,
     "own-tables-x3": sc_own_tables,
+    "txn-pk-conflict": sc_txn_pk_conflict,
 }
 
 
@@ -350,6 +415,8 @@ def _run_schedule(env: core.Env, name: str, plan: list[tuple[int, int]]) -> tupl
         except Deadlock as e:
             raise core.Inconclusive(f"scheduler watchdog: {e}") from None
         env.count("schedules_executed")
+        if sched.blocked_events:
+            env.count("schedules_with_thread_blocked_on_connect_lock")
         env.count("cmp_no_exception")
         for i, e in enumerate(sched.errors):
             if e is not None:
